@@ -77,7 +77,7 @@ def run(job):
     rng.seed(job.seed * 7919 + job.shard)
     cur = [Money.register_currency(c) for c in ("EUR", "USD", "JPY", "HKD", "GBP")]
     base = cur[0]
-    n_hist = 3 if quick else 80
+    n_hist = 12 if quick else 120
     job.bound = (f"{n_hist} random histories per shard x {SHARDS} shards: 3..8 "
                  f"updates in every spelling of the period + stale-cache "
                  f"probes, then all ordered currency pairs x dates")
@@ -101,13 +101,21 @@ def run(job):
             kind_type = type(cv)
             for c, ta, um in specs:
                 model[(cv, c)] = ExchangeRate(base, um, c, ta)
-            # interleave lookups (stale results must not be remembered)
+            # interleave lookups (stale results must not be remembered): the
+            # same dates are looked up again after every later update, and
+            # the default date is looked up under a moving clock
+            for dprev in probes[-3:]:
+                check_lookups(job, conv, model, kind_type, cur, base, [dprev],
+                              (hno, step, "again"), today)
             if rng.random() < 0.6:
-                probes.append((step, dict(model)))
                 d0 = datetime.date(rng.choice([2019, 2020, 2021]),
                                    rng.randint(1, 12), rng.randint(1, 28))
+                probes.append(d0)
                 check_lookups(job, conv, model, kind_type, cur, base, [d0],
                               (hno, step), today)
+                today["d"] = d0
+                check_lookups(job, conv, model, kind_type, cur, base, [None],
+                              (hno, step, "default"), today)
         # mixing kinds of validity is rejected without changing the converter
         other = [k for k in ["none", "year", "month", "day"] if k != kind]
         for ok_ in other:
@@ -124,7 +132,8 @@ def run(job):
                  for m in (1, 6, 12) for d in (1, 15, 28)]
         rng.shuffle(dates)
         check_lookups(job, conv, model, kind_type, cur, base,
-                      dates[:2 if quick else 12], (hno, "final"), today)
+                      probes[-3:] + dates[:2 if quick else 12], (hno, "final"),
+                      today)
         # default effective date comes from the configured callable
         for dd in dates[4:(5 if quick else 6)]:
             today["d"] = dd
